@@ -90,7 +90,7 @@ func TestVerifC05Helper(t *testing.T) {
 }
 
 // c05RunProcs runs one phase with one OS process per client.
-func c05RunProcs(dir string, tg c05Target, phase int, scripts [][]c05Step) (ops []c05Op, reopens int) {
+func c05RunProcs(t c05Failer, dir string, tg c05Target, phase int, scripts [][]c05Step) (ops []c05Op, reopens int) {
 	type child struct {
 		cmd   *exec.Cmd
 		in    *os.File
@@ -157,6 +157,12 @@ func c05RunProcs(dir string, tg c05Target, phase int, scripts [][]c05Step) (ops 
 		err := ch.cmd.Wait()
 		ch.outrd.Close()
 		if err != nil {
+			if strings.Contains(ch.errb.String(), "WARNING: DATA RACE") {
+				for _, o := range cs[i+1:] {
+					o.cmd.Wait()
+				}
+				t.Fatalf("C05 data race: %s backend: the race detector fired in client process %d:\n%s", tg.Kind, i, ch.errb.String())
+			}
 			fmt.Printf("child %d output: %s %s\n", i, rest, ch.errb.String())
 			c05Inconclusive("client process %d failed: %v", i, err)
 		}
@@ -258,7 +264,7 @@ func c05RunCase(t *rapid.T, rec *vfstat.Recorder, cs *c05Case) {
 	for pi, scripts := range cs.Phases {
 		switch cs.Mode {
 		case "procs":
-			o, r := c05RunProcs(dir, tg, pi+1, scripts)
+			o, r := c05RunProcs(t, dir, tg, pi+1, scripts)
 			ops = append(ops, o...)
 			reopens += r
 			nprocs += len(scripts)
